@@ -17,7 +17,7 @@ Want(r, j) == IF r.lvl = "member" THEN Eff(Norm(r.s), j) ELSE IF r.lvl = "vfield
 \* A sequence without a repeat conflict is judged by EQUIVALENCE with its written-out form, as the property states it: the merged instruction sets must
 \* be those of the unrolling, and the real derive must treat both forms alike -- both accepted with token-identical expansions, or both rejected (the
 \* written-out form can itself break a rule, e.g. two default #[parent] instructions on one member; then so does the repeat form).
-MergedOk(r) == IF r.v1 # "ok" /\ Len(r.merged) = 0 THEN TRUE            \* rejected before the parsed state was recorded
+MergedOk(r) == IF (r.v1 # "ok" /\ Len(r.merged) = 0) \/ ("verdict_only" \in DOMAIN r) THEN TRUE     \* rejected before the parsed state was recorded / C15's use: verdict only
                ELSE Len(r.merged) = Len(r.s) /\ \A j \in DOMAIN r.s : AsPairs(r.merged[j]) = Want(r, j)
 Symptom(r) ==
   IF Cfl(r) THEN (IF r.v1 = "err" THEN "-" ELSE IF r.v1 = "panic" THEN "conflict_panics" ELSE "conflict_accepted")
